@@ -356,19 +356,34 @@ func hUUIDParse(s string) (uuid.UUID, error) {
 
 const hMaxLifetimeSec = 88200 // 24.5 h
 
+// The clock: whole seconds, chosen by the harness (the engine calls vhNow for time.Now); by default inside the
+// window of the fixed tokens of the composition harnesses (iat = nbf = 1000, exp >= 2000). Drawn clocks are after
+// 1970-01-01 (the claims they are compared with may lie anywhere).
+var hNowSec int64 = 1500
+
+func vhNow() time.Time { return time.Unix(hNowSec, 0).UTC() }
+
+func hDrawNow() {
+	vTag("now")
+	hNowSec = hSec()
+	vAssume(hNowSec >= 1)
+}
+
 // hBestPracticeRef is the property text: all seven mandatory claims present, jti is a UUID,
-// exp - nbf <= 24.5 h, exp - iat <= 24.5 h, iat <= nbf, sub non-empty.
+// exp - nbf <= 24.5 h, exp - iat <= 24.5 h, iat <= nbf, not expired at the clock, sub non-empty.
 func hBestPracticeRef(t *hToken, sec hTokenSecs, jtiIsUUID bool) bool {
 	return t.hasJti && t.hasIat && t.hasExp && t.hasNbf && t.hasAud && t.hasIss && t.hasSub &&
 		jtiIsUUID &&
 		sec.exp-sec.nbf <= hMaxLifetimeSec &&
 		sec.exp-sec.iat <= hMaxLifetimeSec &&
 		sec.iat <= sec.nbf &&
+		hNowSec < sec.exp &&
 		t.sub != ""
 }
 
 // H04c: bestPracticesCheck on an arbitrary jwt.Token value object. Run with -ints int.
 func H04c() {
+	hDrawNow()
 	t, sec := hSymToken()
 	vTag("jtiIsUUID")
 	hUUIDOK = vBool()
@@ -395,6 +410,8 @@ func H04c() {
 				vCover("rejected-lifetime-iat")
 			} else if sec.iat > sec.nbf {
 				vCover("rejected-iat-after-nbf")
+			} else if hNowSec >= sec.exp {
+				vCover("rejected-expired")
 			} else {
 				vCover("rejected-empty-sub")
 			}
@@ -485,9 +502,36 @@ func hJWTParseString(s string, options ...jwt.ParseOption) (jwt.Token, error) {
 	return nil, errors.New("harness: could not verify message using any of the signatures or keys")
 }
 
+// hTimeModel: instead of a free verdict, jwt.Validate's base validators as jwx v2 implements them (jwt/validate.go,
+// isIssuedAtValid / isExpirationValid / isNotBeforeValid with the default clock truncated to seconds and no skew):
+// each of iat, exp, nbf is checked only if the claim is neither the zero time nor Unix time 0 - a token with
+// "exp": 0 is treated as a token without expiration - and then iat <= now, now < exp, nbf <= now.
+var hTimeModel bool
+
+const hZeroTimeSec = -62135596800 // time.Time{}.Unix()
+
+func hJwxTimeValid(sec hTokenSecs) bool {
+	chk := func(s int64) bool { return s != 0 && s != hZeroTimeSec }
+	ok := true
+	if chk(sec.iat) {
+		ok = ok && sec.iat <= hNowSec
+	}
+	if chk(sec.exp) {
+		ok = ok && hNowSec < sec.exp
+	}
+	if chk(sec.nbf) {
+		ok = ok && sec.nbf <= hNowSec
+	}
+	return ok
+}
+
 func hJWTValidate(t jwt.Token, options ...jwt.ValidateOption) error {
 	hValidated = append(hValidated, t)
-	if !hTimeValid {
+	if hTimeModel {
+		if !hJwxTimeValid(hTheSecs) {
+			return errors.New("harness: time claims not satisfied")
+		}
+	} else if !hTimeValid {
 		return errors.New("harness: \"exp\" not satisfied")
 	}
 	for _, o := range options {
@@ -539,6 +583,68 @@ func hCompToken() (*hToken, hTokenSecs) {
 		t.aud = append(t.aud, vString(1))
 	}
 	return t, sec
+}
+
+// H04g: the validity window at the time of use, through the real checkConnectionAuthorization. One authorised
+// key, a clean ES256 credential that verifies, a token with every claim in order whose iat / nbf / exp are
+// arbitrary, an arbitrary clock, jwt.Validate with the time rules of jwx as implemented (hTimeModel): the request
+// reaches the handler only inside the token's own window nbf <= now < exp, and that window is at most 24.5 h.
+// Conversely a token with iat <= nbf <= now < exp within the limits is served.
+func H04g() {
+	hDrawNow()
+	m := middlewareImpl{audience: "a", authorizedKeys: []authorizedKey{{keyID: "k", comment: "u", jwkSet: &hSet{id: 0}}}}
+	hVerifies[0] = true
+	hJWSSigs = []*hHeaders{{alg: "ES256"}}
+	tok := &hToken{hasJti: true, hasIat: true, hasExp: true, hasNbf: true, hasAud: true, hasIss: true, hasSub: true, jti: "j", iss: "u", sub: "s", aud: []string{"a"}}
+	var sec hTokenSecs
+	vTag("iat")
+	sec.iat = hSec()
+	vTag("nbf")
+	sec.nbf = hSec()
+	vTag("exp")
+	sec.exp = hSec()
+	tok.iat, tok.nbf, tok.exp = time.Unix(sec.iat, 0).UTC(), time.Unix(sec.nbf, 0).UTC(), time.Unix(sec.exp, 0).UTC()
+	hUUIDOK, hTimeModel = true, true
+	hTheToken, hTheSecs = tok, sec
+	ctx := hCtxWithAuthorization("Bearer tok")
+	served := 0
+	err := m.checkConnectionAuthorization(ctx, func(echo.Context) error { served++; return nil })
+	hTimeModel = false
+	if served > 0 {
+		vCover("served")
+		if sec.exp == 0 {
+			vClass("exp is Unix time 0, which the JWT library treats as no expiration")
+		} else if sec.exp == hZeroTimeSec {
+			vClass("exp is the zero time, which the JWT library treats as no expiration")
+		}
+		vAssert(hNowSec < sec.exp, "H04g.not_expired: request served at or after the token's exp")
+		vAssert(sec.nbf <= hNowSec || sec.nbf == 0 || sec.nbf == hZeroTimeSec, "H04g.not_before_respected: request served before the token's nbf")
+		vAssert(sec.exp-sec.nbf <= hMaxLifetimeSec, "H04g.bounded_window: served token has a window of more than 24.5 h")
+	} else {
+		vCover("refused")
+		vAssert(err != nil, "H04g.refusal_is_error: request not served but no error")
+		conforming := sec.iat <= sec.nbf && sec.nbf <= hNowSec && hNowSec < sec.exp &&
+			sec.exp-sec.nbf <= hMaxLifetimeSec && sec.exp-sec.iat <= hMaxLifetimeSec
+		vAssert(!conforming, "H04g.conforming_served: a token inside its bounded window was refused")
+	}
+}
+
+func H04g_twin() {
+	hNowSec = 1700000000
+	m := middlewareImpl{audience: "a", authorizedKeys: []authorizedKey{{keyID: "k", comment: "u", jwkSet: &hSet{id: 0}}}}
+	hVerifies[0] = true
+	hJWSSigs = []*hHeaders{{alg: "ES256"}}
+	tok := &hToken{hasJti: true, hasIat: true, hasExp: true, hasNbf: true, hasAud: true, hasIss: true, hasSub: true, jti: "j", iss: "u", sub: "s", aud: []string{"a"}}
+	sec := hTokenSecs{iat: 1699999000, nbf: 1699999000, exp: 1700000001}
+	tok.iat, tok.nbf, tok.exp = time.Unix(sec.iat, 0).UTC(), time.Unix(sec.nbf, 0).UTC(), time.Unix(sec.exp, 0).UTC()
+	hUUIDOK, hTimeModel = true, true
+	hTheToken, hTheSecs = tok, sec
+	served := 0
+	_ = m.checkConnectionAuthorization(hCtxWithAuthorization("Bearer tok"), func(echo.Context) error { served++; return nil })
+	hTimeModel = false
+	if served == 1 {
+		vAssert(false, "H04g_twin.reach: reachable")
+	}
 }
 
 func H04d() {
